@@ -273,18 +273,21 @@ Definition a_close (st : ast) : ast :=
 Definition recv_split (ev : list event) : event * list event :=
   match ev with [] => (Disc, []) | e :: tl => (e, tl) end.
 
-(* exhaust(): while self._bytes_remaining > 0 *)
-Fixpoint exhaust_loop (ev : list event) (g : net) (r p : Z) : net * Z * Z :=
+(* exhaust(): while self._bytes_remaining > 0.  Repaired code ([fixed]): a chunk larger than
+   the budget is counted only up to the budget (as read()/readall()/iteration truncate it);
+   as found, the whole chunk length was subtracted and added to the position. *)
+Fixpoint exhaust_loop (fixed : bool) (ev : list event) (g : net) (r p : Z) : net * Z * Z :=
   if r >? 0 then
     match ev with
     | [] => (g_recv g Disc [], 0, p)
     | e :: tl =>
       let g' := g_recv g e tl in
       match e with
-      | Disc => exhaust_loop tl g' 0 p
+      | Disc => exhaust_loop fixed tl g' 0 p
       | Req b more =>
-        let n := len (obody b) in
-        exhaust_loop tl g' (if more then r - n else 0) (p + n)
+        let n0 := len (obody b) in
+        let n := if fixed && (n0 >? r) then r else n0 in
+        exhaust_loop fixed tl g' (if more then r - n else 0) (p + n)
       end
     end
   else (g, r, p).
@@ -333,10 +336,13 @@ Definition set_core (st : ast) (b : bytes) (r p : Z) (g : net) : ast :=
   {| buf := b; rem := r; pos := p; closed := closed st; started := started st;
      gen := gen st; nt := g |}.
 
-Definition a_exhaust (st : ast) : ares * ast :=
+(* exhaust(): the look-ahead buffer is discarded too; the repaired code counts it in the
+   position (as found, it was dropped silently) *)
+Definition a_exhaust (fixed : bool) (st : ast) : ares * ast :=
   if closed st then (AErr EValueError, st)
   else
-    let '(g, _, p) := exhaust_loop (evs (nt st)) (nt st) (rem st) (pos st) in
+    let p0 := if fixed then pos st + len (buf st) else pos st in
+    let '(g, _, p) := exhaust_loop fixed (evs (nt st)) (nt st) (rem st) p0 in
     (ANone, set_core st [] 0 p g).
 
 Definition a_readall (st : ast) : ares * ast :=
@@ -423,7 +429,7 @@ Definition astep (fixed : bool) (op : aop) (st : ast) : ares * ast :=
   | AReadAll => a_readall st
   | ANext => a_next st
   | AIterNew => (ANone, set_gen st GFresh)
-  | AExhaust => a_exhaust st
+  | AExhaust => a_exhaust fixed st
   | AClose => (ANone, a_close st)
   | ATell => (AInt (pos st), st)
   | AEof => (ABool (a_eof st), st)
